@@ -1,5 +1,6 @@
 """C17 - parsing is a pure function of the text, free of history (history fragment only; threads outside)."""
 from vf.runner import Ob
+from .common import _sync_section, _two_maps, _e2e  # noqa: F401
 from .common import *  # noqa: F401,F403
 
 LEVEL = "model_checking"
@@ -8,7 +9,7 @@ LEVEL = "model_checking"
 def obligations(tier):
     obs = [Ob("C17.history.len1", "CH", "harness.h_hist", "history_free", 900, {"VF_HIST": 1, "VF_HLEN": 1},
               funcs=("chartparse.chart.Chart.from_file (whole pipeline, native execution)",),
-              bounds="every history of one earlier parse over a 10-text corpus (well-formed, other tempo map, other resolution, garbage/unknown sections, two ill-formed charts that fail to parse, a selection), then every text: identical to its parse as the first parse of a fresh interpreter"),
+              bounds="every history of one earlier parse over a 11-text corpus (well-formed, other tempo map, other resolution, garbage/unknown sections, two ill-formed charts that fail to parse, a selection), then every text: identical to its parse as the first parse of a fresh interpreter"),
            Ob("C17.dispatcher_history", "CH", "harness.h_track", "dispatcher_history", 600, funcs=("chartparse.track.parse_data_from_chart_lines",),
               bounds="two consecutive dispatches over the same line texts with independent symbolic acceptance patterns"),
            Ob("C17.lookup_twice", "CH", "harness.h_sync", "hint_invisible", 300, {"VF_K": 3}, funcs=("chartparse.sync.BPMEvents.timestamp_at_tick",),
@@ -17,9 +18,17 @@ def obligations(tier):
                   bounds="two [Song] sections in a row, the first possibly failing half-way"))
     obs.append(Ob("C17.kernel_sequence", "CH", "harness.h_extra", "kernel_sequence", 300, funcs=("chartparse.tick.seconds_from_ticks_at_bpm",),
                   bounds="the real kernel twice in a row"))
+    obs.append(Ob("C17.hash_seeds", "CH", "harness.h_hist", "hash_seed_free", 900, {"VF_HIST": 1},
+                  funcs=("chartparse.chart.Chart.from_file (whole pipeline, native execution)",),
+                  bounds="every corpus text parsed as the first parse of fresh interpreters started with 6 other string-hash seeds: identical observation, rendering and report order"))
     if tier == "thorough":
         obs.append(Ob("C17.history.len2", "CH", "harness.h_hist", "history_free", 1800, {"VF_HIST": 1, "VF_HLEN": 2},
                       funcs=("chartparse.chart.Chart.from_file",), bounds="every history of two earlier parses over the corpus (10^3 cases)"))
+    obs.append(_two_maps("C17"))
+    obs.append(Ob("C17.long_history", "CH", "harness.h_hist", "long_history", 1200,
+                  funcs=("chartparse.chart.Chart.from_file (whole pipeline, native execution)",),
+                  bounds="30/120/400 parses in one fresh interpreter alternating two of four texts that share every tick but differ in tempo map / resolution, "
+                         "each chart dropped at once (freed objects, recycled addresses): every parse identical to the first parse of its text"))
     return obs
 
 
@@ -28,10 +37,10 @@ LEVEL_TEXT = ("Only the *history* part of the statement is decided: CrossHair en
               "(full public observation and str()) to the parse of the same text as the very first parse of a fresh interpreter, which is "
               "computed in separate processes; plus symbolic two-call harnesses on the dispatcher and the tempo lookup.")
 LEVEL_NOTE = ("NOT decided: concurrent parses on other threads (CrossHair has no thread model; interleavings are outside the claim), histories "
-              "longer than 1 (quick) / 2 (thorough), texts outside the 10-text corpus. Every explored history runs in its own fresh interpreter "
+              "longer than 1 (quick) / 2 (thorough), texts outside the 11-text corpus. Every explored history runs in its own fresh interpreter "
               "(native execution; the solver only chooses the history), so explored paths cannot influence each other. Trusted: S1, S3, S4.")
 TECHNIQUE = "CrossHair-enumerated bounded parse histories compared with fresh-interpreter parses; symbolic two-call harnesses"
 EXPLANATION = "see obligation_table; threads are outside the claim"
-BOUNDS = "histories of length <=1 (quick) / <=2 (thorough) over a 10-text corpus; 2 dispatches x 2 lines x 2 kinds"
+BOUNDS = "histories of length <=1 (quick) / <=2 (thorough) over a 11-text corpus; 2 dispatches x 2 lines x 2 kinds"
 OUTSIDE = "thread interleavings; longer histories; other texts"
 ASSUMPTIONS = [S1, S3, S4, "fresh-interpreter reference parses are computed by subprocesses of the same interpreter binary"]
